@@ -150,7 +150,11 @@ static void cmd_vals(kv_t *K)
 	   and the column keep another nonzero and the matrix stays nonsingular): a request to reuse the old row order must then fall back */
 	int zp = (int) kv_i(K, "zp", 0), tries = 0, done = 0, n = S.n;
 	while (zp > 0 && done < zp && tries++ < 8 * zp && S.haveLU && S.stype == 0 && is_perm(S.perm_r, n) && is_perm(S.perm_c, n)) {
-	    int jc = (int) rng_int(&R, n), i, kk, at = -1, others = 0, rowothers = 0, j2;
+	    /* columns in elimination order: the entry is still the stored value when its column is pivoted only if no earlier column
+	       updates it -- certain for the first column, likely for the next ones (leaves of the elimination tree) */
+	    int jc = -1, i, kk, at = -1, others = 0, rowothers = 0, j2;
+	    for (j2 = 0; j2 < n; ++j2) if (S.perm_c[j2] == (tries - 1) % n) jc = j2;
+	    if (jc < 0) continue;
 	    for (kk = S.ptr[jc]; kk < S.ptr[jc + 1]; ++kk) { if (S.perm_r[S.ind[kk]] == S.perm_c[jc]) at = kk; else if (cabsl(to_lc(S.val0[kk])) > 0) ++others; }
 	    if (at < 0 || !others || cabsl(to_lc(S.val0[at])) == 0) continue;
 	    i = S.ind[at];
@@ -203,9 +207,11 @@ static int padding_ok(const SCALAR *b, int nrhs, int ldb)
 }
 
 /* the caller passes the original (unscaled) values again before a new factorization */
+/* (the caller's equed VARIABLE keeps whatever the previous call left in it: it is an output of every call that factors, and the
+   library has to set it -- a caller who goes from EQUILIBRATE to DOFACT to FACTORED with one variable relies on that) */
 static void restore_values(void)
 {
-    if (S.equed != NOEQUIL) { memcpy(S.val, S.val0, sizeof(SCALAR) * S.nnz); S.equed = NOEQUIL; }
+    memcpy(S.val, S.val0, sizeof(SCALAR) * S.nnz);
 }
 static void destroy_LU(void)
 {
